@@ -380,7 +380,11 @@ def pkEmpty : PState := { entries := [], pmeta := { files := [], size := 0 } }
 
 /-- `os.Lstat(src)` at the top of `Pack` (a trailing slash makes the kernel follow a final link) -/
 def pkRootInfo (fs : FS) (cwd src : Str) : Except Errno Node :=
-  if hasSuffix src ['/'] ∧ src ≠ ['/'] then (fs.stat (pathAbs cwd src)).map (·.2)
+  if hasSuffix src ['/'] ∧ src ≠ ['/'] then
+    match fs.stat (pathAbs cwd src) with
+    | .ok (_, .dir pm mt) => .ok (.dir pm mt)
+    | .ok _ => .error .enotdir
+    | .error e => .error e
   else fs.lstat (pathAbs cwd src)
 
 /-- the source path after the root-symlink step of `Pack` (`src` itself unless `src` is a symlink,
@@ -415,9 +419,9 @@ theorem pk_pack_eq (fs : FS) (cwd : Str) (o : PackOpts) (src : Str) :
           pkFinish (walkNode fs cwd o (pkRules fs cwd o src) (pkRoot fs cwd src) (pkRoot fs cwd src)
             (pkRoot fs cwd src) packFuel (pkRoot fs cwd src) n pkEmpty) := by
   unfold pack pkRules pkRoot pkSrc1 pkEmpty pkFinish
-  generalize hri : pkRootInfo fs cwd src = ri
-  unfold pkRootInfo at hri
-  simp only [hri]
+  generalize hri : (if hasSuffix src ['/'] ∧ src ≠ ['/'] then _ else fs.lstat (pathAbs cwd src)) = ri
+  have hri' : pkRootInfo fs cwd src = ri := hri
+  simp only [hri']
   cases ri with
   | error e => rfl
   | ok info =>
@@ -1161,11 +1165,27 @@ theorem pk_stat_eq_lstat (fs : FS) (path : Str) (h : ∀ t, fs.lstat path ≠ .o
   cases fs.resolvePath path false with
   | error e => rfl
   | ok p => simp only; cases fs.lookup p <;> rfl
-theorem pk_rootInfo_nolink (fs : FS) (cwd s : Str) (h : ∀ t, fs.lstat (pathAbs cwd s) ≠ .ok (.link t)) :
+/-- the root `Lstat` of `Pack` is a plain `Lstat` of the absolute path when that is not a symlink —
+and, for a spelling with a trailing slash, not a regular or special file either (`Lstat("file/")`
+is `ENOTDIR`) -/
+theorem pk_rootInfo_nolink (fs : FS) (cwd s : Str) (h : ∀ t, fs.lstat (pathAbs cwd s) ≠ .ok (.link t))
+    (hd : hasSuffix s ['/'] = true → ∀ n, fs.lstat (pathAbs cwd s) = .ok n → ∃ pm mt, n = .dir pm mt) :
     pkRootInfo fs cwd s = fs.lstat (pathAbs cwd s) := by
   unfold pkRootInfo
   split
-  · exact pk_stat_eq_lstat fs _ h
+  · rename_i hc
+    have hsl := pk_stat_eq_lstat fs _ h
+    have hd' := hd hc.1
+    revert hsl hd'
+    generalize fs.lstat (pathAbs cwd s) = l
+    generalize fs.stat (pathAbs cwd s) = st
+    intro hsl hd'
+    cases st with
+    | error e => exact hsl
+    | ok pn =>
+      obtain ⟨p, n⟩ := pn
+      obtain ⟨pm, mt, rfl⟩ := hd' n hsl.symm
+      exact hsl
   · rfl
 
 theorem pk_pathJoin_clean_left (a b : Str) (ha : isAbs a = true) : pathJoin (pathClean a) b = pathJoin a b := by
@@ -1414,15 +1434,17 @@ theorem pk_pathAbs_pathJoin_rel (cwd rel x : Str) (hcwd : isAbs cwd = true) (hre
   rw [hL, hR, pathJoin_abs cwd _ hcwd, pathJoin_abs _ x (pathJoin_absClean cwd rel hcwd).1,
     pathSegs_pathJoin cwd rel hcwd, clean_join, pk_pathSegs_pathClean_rel y hyabs,
     pk_cleanSegs_append_cleanRel, hysegs, List.append_assoc]
-/-- a relative spelling of a source that is not a symlink is packed like its absolute form -/
+/-- a relative spelling of a source that is not a symlink (and, when spelled with a trailing slash,
+not a regular or special file) is packed like its absolute form -/
 theorem pk_pack_spelling_rel (fs : FS) (cwd : Str) (o : PackOpts) (rel : Str)
     (hcwd : isAbs cwd = true) (hrel : isAbs rel = false)
-    (hnl : ∀ t, fs.lstat (pathAbs cwd rel) ≠ .ok (.link t)) :
+    (hnl : ∀ t, fs.lstat (pathAbs cwd rel) ≠ .ok (.link t))
+    (hd : hasSuffix rel ['/'] = true → ∀ n, fs.lstat (pathAbs cwd rel) = .ok n → ∃ pm mt, n = .dir pm mt) :
     pack fs cwd o rel = pack fs cwd o (pathAbs cwd rel) := by
   have habs : pathAbs cwd rel = pathJoin cwd rel := by unfold pathAbs; simp [hrel]
   have hac : AbsClean (pathAbs cwd rel) := by rw [habs]; exact pathJoin_absClean cwd rel hcwd
   have hfix : pathAbs cwd (pathAbs cwd rel) = pathAbs cwd rel := pathAbs_absClean cwd _ hac
-  have hi1 : pkRootInfo fs cwd rel = fs.lstat (pathAbs cwd rel) := pk_rootInfo_nolink fs cwd rel hnl
+  have hi1 : pkRootInfo fs cwd rel = fs.lstat (pathAbs cwd rel) := pk_rootInfo_nolink fs cwd rel hnl hd
   have hi2 : pkRootInfo fs cwd (pathAbs cwd rel) = fs.lstat (pathAbs cwd rel) :=
     pk_rootInfo_absClean fs cwd _ hac
   have hs1 : pkSrc1 fs cwd rel = rel := by
